@@ -6,6 +6,7 @@ pub mod c01;
 pub mod c02;
 #[cfg(feature = "ref")]
 pub mod c03;
+pub mod c04;
 
 pub fn n_cases(ctx: &Ctx) -> u64 {
     match ctx.prop.as_str() {
@@ -13,6 +14,7 @@ pub fn n_cases(ctx: &Ctx) -> u64 {
         "C02" => c02::n_cases(ctx),
         #[cfg(feature = "ref")]
         "C03" => c03::n_cases(ctx),
+        "C04" => c04::n_cases(ctx),
         _ => 0,
     }
 }
@@ -23,6 +25,7 @@ pub fn run_case(ctx: &Ctx, idx: u64) -> Vec<CaseOut> {
         "C02" => c02::run_case(ctx, idx),
         #[cfg(feature = "ref")]
         "C03" => c03::run_case(ctx, idx),
+        "C04" => c04::run_case(ctx, idx),
         _ => Vec::new(),
     }
 }
